@@ -87,7 +87,7 @@ impl KeyId for XOnlyPublicKey {
 }
 
 /// real miniscript ↦ neutral AST
-fn from_ms<Pk: KeyId, Ctx: ScriptContext>(ms: &Miniscript<Pk, Ctx>) -> Node {
+pub(crate) fn from_ms<Pk: KeyId, Ctx: ScriptContext>(ms: &Miniscript<Pk, Ctx>) -> Node {
     let b = |x: &Arc<Miniscript<Pk, Ctx>>| Box::new(from_ms(x));
     let ks = |v: &[Pk]| -> Vec<u32> { v.iter().map(|k| k.id()).collect() };
     match &ms.node {
@@ -456,11 +456,57 @@ fn size_limit_inputs(ctx: CtxK) -> Vec<Node> {
          OrD(Box::new(Multi(1, ks(14))), Box::new(pkc(3)))]
 }
 
+/// KEYLESS fragments (hash-only, lock-only) at the first / middle / last position of every
+/// container, whole keyless scripts, and scripts the sane parser refuses for exactly one reason
+/// (a repeated key in every pair of occurrence kinds, mixed lock units, no signature) but
+/// `from_ast` accepts - the key walkers and the translator must handle them all
+pub(super) fn keyless_corpus(ctx: CtxK) -> Vec<Node> {
+    use Node::*;
+    let b = if ctx == CtxK::Tap { 200 } else { 0 };
+    let bx = |n: Node| Box::new(n);
+    let pk = |i: u32| Check(bx(PkK(b + i)));
+    let pkh = |i: u32| Check(bx(PkH(b + i)));
+    let h = |i: u32| Hash(HK::Sha256, i % 4);
+    let h2 = |i: u32| Hash(HK::Hash160, i % 4);
+    let s = |n: Node| Swap(bx(n));
+    let a = |n: Node| Alt(bx(n));
+    let v = |n: Node| Verify(bx(n));
+    let mut out = vec![
+        // thresh: keyless child first / middle / last / all
+        Thresh(2, vec![h(0), s(pk(1)), s(pk(2))]), Thresh(2, vec![pk(0), a(h(1)), s(pk(2))]), Thresh(2, vec![pk(0), s(pk(1)), a(h(2))]),
+        Thresh(1, vec![h(0), a(h(1)), a(h2(2))]), Thresh(2, vec![h(0), s(pk(1)), a(h(2))]), Thresh(3, vec![pk(0), a(h(1)), a(h2(2)), s(pk(3))]),
+        // and_v / and_b / or_b / or_d / or_i / andor: keyless left, right, both
+        AndV(bx(v(h(0))), bx(pk(1))), AndV(bx(v(pk(0))), bx(h(1))), AndV(bx(v(h(0))), bx(h2(1))),
+        AndV(bx(v(pk(0))), bx(Older(5))), AndV(bx(v(pk(0))), bx(After(100))), AndV(bx(v(h(0))), bx(Older(5))),
+        AndB(bx(h(0)), bx(s(pk(1)))), AndB(bx(pk(0)), bx(a(h(1)))), AndB(bx(h(0)), bx(a(h2(1)))),
+        OrB(bx(h(0)), bx(s(pk(1)))), OrB(bx(pk(0)), bx(a(h(1)))), OrB(bx(h(0)), bx(a(h2(1)))),
+        OrD(bx(h(0)), bx(pk(1))), OrD(bx(pk(0)), bx(h(1))), OrD(bx(h(0)), bx(h2(1))),
+        OrI(bx(h(0)), bx(pk(1))), OrI(bx(pk(0)), bx(h(1))), OrI(bx(Older(5)), bx(pk(1))), OrI(bx(pk(0)), bx(After(100))), OrI(bx(h(0)), bx(Older(5))),
+        OrC(bx(h(0)), bx(v(pk(1)))), OrC(bx(pk(0)), bx(v(h(1)))),
+        AndOr(bx(h(0)), bx(pk(1)), bx(pk(2))), AndOr(bx(pk(0)), bx(h(1)), bx(pk(2))), AndOr(bx(pk(0)), bx(pk(1)), bx(h(2))), AndOr(bx(h(0)), bx(h2(1)), bx(Older(5))),
+        // whole keyless scripts
+        h(0), Older(5), After(100), True, AndV(bx(v(Older(5))), bx(After(100))),
+        // refused by the sane parser, accepted by from_ast: a repeated key in every pair of kinds
+        AndV(bx(v(pk(0))), bx(pk(0))), AndV(bx(v(pk(0))), bx(pkh(0))), AndV(bx(v(pkh(0))), bx(pkh(0))), OrD(bx(pk(0)), bx(AndV(bx(v(pkh(0))), bx(Older(10))))),
+        OrI(bx(pk(1)), bx(pk(1))), Thresh(2, vec![pk(0), s(pk(0)), s(pk(1))]),
+        // mixed lock units on one path, both orders
+        AndV(bx(v(After(100))), bx(AndV(bx(v(After(500000001))), bx(pk(0))))), AndV(bx(v(Older(4194305))), bx(AndV(bx(v(Older(5))), bx(pk(0))))),
+    ];
+    if ctx == CtxK::Tap {
+        out.extend(vec![AndV(bx(v(MultiA(1, vec![b, b]))), bx(pk(1))), AndV(bx(v(MultiA(2, vec![b + 1, b, b + 2]))), bx(h(0))), OrI(bx(h(0)), bx(SortedMultiA(1, vec![b + 2, b + 1])))]);
+    } else {
+        out.extend(vec![AndV(bx(v(Multi(1, vec![b, b]))), bx(pk(1))), AndV(bx(v(Multi(2, vec![b + 1, b, b + 2]))), bx(h(0))), OrI(bx(h(0)), bx(SortedMulti(1, vec![b + 2, b + 1]))),
+                        AndV(bx(v(pk(0))), bx(Multi(1, vec![b, b + 1])))]);
+    }
+    out
+}
+
 fn inputs(ctx: CtxK, thorough: bool, rng: &mut Rng) -> Vec<Node> {
     let (depth, quota, nrand) = if thorough { (3, 20, 200) } else { (2, 3, 10) };
     let mut v = hand(ctx);
     v.extend(ast::dimension_corpus(ctx));
     v.extend(size_limit_inputs(ctx));
+    v.extend(keyless_corpus(ctx));
     let atoms = default_atoms(ctx, false);
     v.extend(ast::enumerate(ctx, &atoms, depth, quota, rng).into_iter().map(|t| t.node));
     for i in 0..nrand {
@@ -898,7 +944,7 @@ pub fn run(out: &mut Out, thorough: bool, seed: u64) {
     c20p::run(out, thorough, &mut rng);
     let _ = std::panic::take_hook();
     out.note("domain", format!(
-        "4 contexts; hand-written asymmetric fragments + enumerate depth {} + random_b; maps id/ren/ren2/comp/unc/xonly/fail:i/failcall:n; descriptors wsh/sh/sh(wsh)/wpkh/pkh/pk/tr self-checked",
+        "4 contexts; hand-written asymmetric fragments + enumerate depth {} + random_b; maps id/ren/ren2/comp/unc/xonly/fail:i/failcall:n; descriptors wsh/sh/sh(wsh)/wpkh/pkh/pk/tr self-checked; keyless / refused-by-sane corpus (keyless fragment first/middle/last in every container, repeated keys, mixed lock units); the whole corpus through wsh / sh(wsh) / sh / bare / single-leaf tr, each also via the parsed route, USED and clone-of-used; keyless tap leaves at every position via new_tr and Tr::new; Descriptor::for_each_key / for_any_key vs model",
         if thorough { 3 } else { 2 }));
     out.note("distinct_nontrivial", total.to_string());
 }
